@@ -430,6 +430,19 @@ def noop(i):
     return None
 
 
+def noop_any(*a):
+    """a callback for do_action's on_completed / on_create / on_error (called with a key, an error, or nothing)"""
+    return None
+
+
+def const_of(val, e):
+    return val
+
+
+def time_of_np_arr0(r):
+    return _np.array(r.t)           # a 0-d numpy array: a mutable number (+= changes it in place)
+
+
 def star_rec(fn):
     def star(k, n, v, t, c):
         return fn(Rec(k, n, v, t, c))
